@@ -36,3 +36,6 @@ Definition panic_eqb (a b : panic) : bool :=
   | SyntaxPanic, SyntaxPanic | UnsupportedPanic, UnsupportedPanic | RuntimePanic, RuntimePanic => true
   | _, _ => false
   end.
+
+(* the two emulated failure conditions of the clients *)
+Inductive failure := FInternal | FDeprecated.
